@@ -8,7 +8,7 @@ commutative operands leave the term unchanged.  A local is inlined only when its
   * all bindings of the name are plain assignments (`x = v` or an element of a tuple assignment) sitting in one
     statement list, in which case the definition reaching a use is the textually last one before the use
     (an assignment's own right-hand side sees the previous binding);
-  * or exactly two plain assignments in the two arms of one `if`, giving  Phi(test, a, b);
+  * or exactly two plain assignments in the two arms of one `if`, giving the conditional expression  a if test else b;
   * and the object bound is never updated in place through that name (subscript store, augmented assignment,
     mutating method).
 
@@ -305,10 +305,9 @@ class Resolver:
                 vat = getattr(v, "_at", at)
                 if isinstance(vat, tuple):      # Phi: test evaluated at the if, arms at their statements
                     if_st, sa, sb = vat
-                    return ast.Call(func=ast.Name(id="Phi", ctx=ast.Load()),
-                                    args=[r._term(v.args[0], if_st, depth - 1, keep, bound),
-                                          r._term(v.args[1], sa, depth - 1, keep, bound),
-                                          r._term(v.args[2], sb, depth - 1, keep, bound)], keywords=[])
+                    return ast.IfExp(test=r._term(v.args[0], if_st, depth - 1, keep, bound),
+                                     body=r._term(v.args[1], sa, depth - 1, keep, bound),
+                                     orelse=r._term(v.args[2], sb, depth - 1, keep, bound))
                 return r._term(v, vat, depth - 1, keep, bound)
 
             def visit_Attribute(self, n):
@@ -350,6 +349,15 @@ class Resolver:
 
             def visit_Call(self, n):
                 n = self.generic_visit(copy.copy(n))
+                # (lambda a, b: e)(x, y)  ->  e[a := x, b := y]   for plain positional arguments
+                if isinstance(n.func, ast.Lambda) and not n.keywords and not n.func.args.defaults \
+                        and len(n.args) == len(n.func.args.args) and not any(isinstance(a, ast.Starred) for a in n.args):
+                    sub_ = {p_.arg: a for p_, a in zip(n.func.args.args, n.args)}
+
+                    class Beta(ast.NodeTransformer):
+                        def visit_Name(self, x):
+                            return copy.deepcopy(sub_[x.id]) if x.id in sub_ and isinstance(x.ctx, ast.Load) else x
+                    return Beta().visit(copy.deepcopy(n.func.body))
                 return r.norm_call(n)
 
             def visit_Subscript(self, n):
@@ -358,11 +366,10 @@ class Resolver:
                 if isinstance(n.value, (ast.Tuple, ast.List)) and isinstance(n.slice, ast.Constant) and isinstance(n.slice.value, int) \
                         and -len(n.value.elts) <= n.slice.value < len(n.value.elts):
                     return n.value.elts[n.slice.value]
-                # Phi(c, a, b)[k] -> Phi(c, a[k], b[k])
-                if isinstance(n.value, ast.Call) and isinstance(n.value.func, ast.Name) and n.value.func.id == "Phi":
-                    c, a, b = n.value.args
+                # (a if c else b)[k] -> (a[k] if c else b[k])   (constant k: element of a two-way choice of tuples)
+                if isinstance(n.value, ast.IfExp) and isinstance(n.slice, ast.Constant):
                     mk = lambda v: self.visit_Subscript(ast.Subscript(value=v, slice=n.slice, ctx=ast.Load()))
-                    return ast.Call(func=n.value.func, args=[c, mk(a), mk(b)], keywords=[])
+                    return ast.IfExp(test=n.value.test, body=mk(n.value.body), orelse=mk(n.value.orelse))
                 return n
         out = T().visit(copy.deepcopy(node) if not isinstance(node, ast.Name) else node)
         return out
